@@ -167,4 +167,19 @@ PROPS = {
         "modelled": ["store/sqlite.go nodePoints, edgePoints, updateHash/updateHashHelper/updateHashEdge, isAncestor, normalizePoints and data.Points.Collapse, data.Point.CRC, data.NodeEdge.CalcHash modelled by hand (Siot/Model/Store.lean, Crc32.lean)", "time.Now() for zero timestamps is not modelled (generated points carry explicit non-zero times)", "the model's upstream walks use fuel 2^|edges|, proved never to be exhausted on reachable (acyclic) states; the Go recursion has no bound", "bus level (reply text, up.* stream, follow-up latency) is covered by the handler facts gen_facts_pinned and, when the bus harness is available, by C06/C08 runs"],
         "assumptions": [],
     },
+    "C06": {
+        "required_theorems": ["c06_node_complete_and_tight", "c06_edge_complete_and_tight", "c06_node_sub_edge", "c06_self", "gen_rebroadcast_pinned"],
+        "n": {"quick": 400, "thorough": 6000},
+        "thorough_seeds": 3,
+        "rule": "one in-process instance (embedded NATS + store, root R); per case 2-7 edge writes over the bus building chains, mirrors, diamonds, detached nodes (parent none), "
+                "tombstoned and undeleted edges (tombstone 0..3), refused self edges; then ONE observed write (node points, edge points incl. delete/undelete, a new edge, or a refused NaN/self write) "
+                "whose up.> publications are collected between two sentinel writes; payload compared with the batch sent; oracle = subject set equals the fixpoint upward closure "
+                "(live edges for node points, all edges for edge points), nothing for a refused write; distinct = distinct case line",
+        "trusted": ["embedded nats-server: in-order delivery per publisher/subscriber, used to bracket the observed publications by sentinels", "modernc SQLite as in C05"],
+        "modelled": ["store/store.go processPointsUpstream/processEdgePointsUpstream and store/sqlite.go up modelled by hand (Siot/Model/Rebroadcast.lean on top of the store model); their shape is re-extracted on every run (gen_rebroadcast_pinned)",
+                     "math.Mod(tombstone, 2) == 0 is a parameter isEven of the theorems (IEEE remainder not modelled); the driver instantiates it with float arithmetic",
+                     "node id 'none' is the walk's stop sentinel in the Go code; a node literally named 'none' is outside the generator (documented in DESIGN.md)",
+                     "delivery to slow or disconnected subscribers (NATS at-most-once) is outside the model: the theorem is about what the store publishes"],
+        "assumptions": [],
+    },
 }
